@@ -19,8 +19,8 @@ def run(ctx):
     ctx.assume(*_pipe.ASSUME)
     ctx.not_claimed(_pipe.OUTSIDE)
     C = []
-    ks = [5, 28, 30] if q else list(range(len(P.HOLES)))
-    C += PC.text_holes(ctx, own, sorted(set(ks)), vis=(4,), timeout=900 if q else 2400)
+    ks = [5, 28, 30] if q else list(range(0, len(P.HOLES), 2)) + [31, 33, 35, 37]
+    C += PC.text_holes(ctx, own, sorted(set(ks)), vis=(4,), timeout=900)
     C += PC.spell_holes(ctx, own, [0, 3] if q else range(len(P.SPELL)))
     C += PC.label_holes(ctx, own, [P.skel('f"a'), P.skel("f'''")] + _pipe.pick(ctx, 1, len(P.SKELS)) if q else range(len(P.SKELS)),
                         positions=None, vis=(4,) if q else (0, 4, 8))
